@@ -8,9 +8,11 @@ package ag
 import (
 	"bufio"
 	"bytes"
+	"compress/gzip"
 	"encoding/json"
 	"flag"
 	"fmt"
+	"io"
 	"net"
 	"net/http"
 	"os"
@@ -27,6 +29,7 @@ import (
 	"github.com/relex/gotils/logger"
 	"github.com/relex/slog-agent/base"
 	"github.com/relex/slog-agent/defs"
+	"github.com/relex/slog-agent/output/fluentdforward"
 	"github.com/relex/slog-agent/run"
 	"github.com/vmihailenco/msgpack/v4"
 
@@ -63,6 +66,15 @@ type Script struct {
 	ID         string `json:"id"`
 	ViaRun     bool   `json:"viaRun"`     // every generation is a child process running run.Run (the agent's main path): SIGTERM stops it, SIGHUP reloads it
 	TwoOutputs bool   `json:"twoOutputs"` // a second Fluentd output with its own upstream (Gen.Upstream2) and queue root
+	// the output is the Datadog client and the upstream an HTTP intake; Gen.Upstream is then the outcome per request:
+	// healthy (200) | lateAck (200 after 120 ms) | noAck (never answers) | closeNow (connection reset) | resetAfter1 (500) | resetAfter2 (300)
+	Datadog bool `json:"datadog"`
+	// upstream.maxDuration of the Fluentd output in ms (0 = 300): the scheduled reconnect
+	MaxDurationMs int `json:"maxDurationMs"`
+	// httpTimeout of the Datadog output in ms (0 = 400)
+	DDTimeoutMs int `json:"ddTimeoutMs"`
+	// record limit per chunk of the Fluentd output (0 = the shipped limits): chunks roll over by count, not only by the flush tick
+	ChunkRecords int `json:"chunkRecords"`
 	Keys       int    `json:"keys"`       // number of key sets (apps)
 	MemWindow  int    `json:"memWindow"`  // defs.BufferMaxNumChunksInMemory
 	Gens       []Gen  `json:"gens"`
@@ -110,6 +122,9 @@ outputBufferPairs:
             maxDuration: 300ms
 `
 
+var ddHTTPTimeout = "400ms"
+var ffMaxDuration = "300ms"
+
 func confText(kind, queueRoot, upAddr string, twoKeys bool) string {
 	keys, extra := "app", ""
 	if twoKeys {
@@ -126,6 +141,11 @@ func confText(kind, queueRoot, upAddr string, twoKeys bool) string {
 		keys = "app, source"
 	}
 	text := fmt.Sprintf(confTemplate, keys, extra, queueRoot, upAddr)
+	text = strings.Replace(text, "maxDuration: 300ms", "maxDuration: "+ffMaxDuration, 1)
+	if strings.HasPrefix(upAddr, "http://") {
+		i := strings.Index(text, "    output:\n")
+		text = text[:i] + "    output:\n        type: datadog\n        serialization:\n            hiddenFields: []\n        upstream:\n            address: " + upAddr + "\n            httpTimeout: " + ddHTTPTimeout + "\n"
+	}
 	if kind == "addoutput" {
 		i := strings.Index(text, "  - name: out1")
 		second := strings.Replace(strings.Replace(text[i:], "name: out1", "name: out2", 1), "rootPath: "+queueRoot, "rootPath: "+queueRoot+"2", 1)
@@ -248,14 +268,110 @@ func (u *upstream) serve(c net.Conn, k int, beh string) {
 	}
 }
 
+// ddStamps decodes a Datadog request body or chunk file (gzip, JSON array of flat string maps)
+func ddStamps(data []byte) (st [][]int, tag string, ok bool) {
+	st = [][]int{}
+	zr, err := gzip.NewReader(bytes.NewReader(data))
+	if err != nil {
+		return st, "", false
+	}
+	body, err := io.ReadAll(zr)
+	if err != nil {
+		return st, "", false
+	}
+	var arr []map[string]string
+	if json.Unmarshal(body, &arr) != nil {
+		return st, "", false
+	}
+	ok = true
+	for _, r := range arr {
+		s, good := parseStamp(r["log"])
+		app := r["app"]
+		if !good || r["host"] != fmt.Sprintf("host%d", s.c) || !strings.HasPrefix(app, "app") || r["ddtags"] != "dev."+app || (tag != "" && tag != r["ddtags"]) {
+			ok = false
+		}
+		tag = r["ddtags"]
+		k, _ := strconv.Atoi(strings.TrimPrefix(app, "app"))
+		st = append(st, []int{s.g, s.c, s.i, k})
+	}
+	return st, tag, ok
+}
+
+// ServeHTTP is the Datadog intake: one scripted outcome per request
+func (u *upstream) ServeHTTP(w http.ResponseWriter, r *http.Request) {
+	data, rerr := io.ReadAll(r.Body)
+	u.mu.Lock()
+	beh := "healthy"
+	if u.nconn < len(u.script) {
+		beh = u.script[u.nconn]
+	}
+	u.nconn++
+	u.mu.Unlock()
+	st, tag, ok := ddStamps(data)
+	if rerr != nil || len(st) == 0 {
+		ok = false
+	}
+	// a Datadog request carries no chunk id: the first record and the record count name the chunk (a resend is the same bytes)
+	id := "none"
+	if len(st) > 0 {
+		id = fmt.Sprintf("dd-%02d-%02d-%06d-%04d", st[0][0], st[0][1], st[0][2], len(st))
+	}
+	u.tr.Emit(u.pre+"Chunk", "k", 1, "id", id, "tag", tag, "stamps", st, "size", len(st), "intact", ok && r.Header.Get("Content-Encoding") == "gzip")
+	abort := func() {
+		if hj, can := w.(http.Hijacker); can {
+			if c, _, err := hj.Hijack(); err == nil {
+				if tc, isTCP := c.(*net.TCPConn); isTCP {
+					_ = tc.SetLinger(0)
+				}
+				c.Close()
+			}
+		}
+	}
+	switch beh {
+	case "noAck":
+		select {
+		case <-r.Context().Done():
+		case <-time.After(10 * time.Second):
+		}
+		abort()
+		return
+	case "closeNow", "refuse":
+		abort()
+		return
+	case "resetAfter1":
+		w.WriteHeader(500)
+		return
+	case "resetAfter2":
+		w.WriteHeader(300)
+		return
+	case "lateAck":
+		time.Sleep(120 * time.Millisecond)
+	}
+	u.mu.Lock()
+	for _, s := range st {
+		u.ackedStamps[stamp{s[0], s[1], s[2]}] = true
+	}
+	u.mu.Unlock()
+	u.tr.Emit(u.pre+"Ack", "k", 1, "id", id)
+	w.WriteHeader(202)
+}
+
 func diskStamps(root string) ([][]int, bool) {
 	res := [][]int{}
 	ok := true
 	_ = filepath.Walk(root, func(p string, info os.FileInfo, err error) error {
-		if err != nil || info.IsDir() || !strings.HasSuffix(p, ".ff") {
+		if err != nil || info.IsDir() || !(strings.HasSuffix(p, ".ff") || strings.HasSuffix(p, ".dd")) {
 			return nil
 		}
 		data, _ := os.ReadFile(p)
+		if strings.HasSuffix(p, ".dd") {
+			st, _, good := ddStamps(data)
+			if !good {
+				ok = false
+			}
+			res = append(res, st...)
+			return nil
+		}
 		var msg forwardprotocol.Message
 		if derr := msgpack.NewDecoder(bytes.NewReader(data)).Decode(&msg); derr != nil {
 			ok = false
@@ -302,8 +418,30 @@ func RunScript(sc Script, work string) *vtrace.Tracer {
 	} else {
 		defs.BufferMaxNumChunksInMemory = 500
 	}
+	if sc.ChunkRecords > 0 {
+		oldRecs, oldBytes := fluentdforward.SetChunkLimitsForVerif(sc.ChunkRecords, 0)
+		defer fluentdforward.SetChunkLimitsForVerif(oldRecs, oldBytes)
+	}
 	up := &upstream{pre: "Up", tr: tr, addr: "127.0.0.1:0", ackedStamps: map[stamp]bool{}}
-	if err := up.listen(); err != nil {
+	ffMaxDuration = "300ms"
+	if sc.MaxDurationMs > 0 {
+		ffMaxDuration = fmt.Sprintf("%dms", sc.MaxDurationMs)
+	}
+	ddHTTPTimeout = "400ms"
+	if sc.DDTimeoutMs > 0 {
+		ddHTTPTimeout = fmt.Sprintf("%dms", sc.DDTimeoutMs)
+	}
+	if sc.Datadog {
+		ln, err := net.Listen("tcp", "127.0.0.1:0")
+		if err != nil {
+			tr.Emit("HarnessError", "what", err.Error())
+			return tr
+		}
+		up.ln, up.addr = ln, "http://"+ln.Addr().String()+"/api/v2/logs"
+		srv := &http.Server{Handler: up}
+		go func() { _ = srv.Serve(ln) }()
+		defer srv.Close()
+	} else if err := up.listen(); err != nil {
 		tr.Emit("HarnessError", "what", err.Error())
 		return tr
 	}
@@ -347,7 +485,7 @@ func RunScript(sc Script, work string) *vtrace.Tracer {
 		tr.Emit("Start", "gen", genNo)
 		filesBefore := 0
 		_ = filepath.Walk(queue, func(p string, info os.FileInfo, err error) error {
-			if err == nil && !info.IsDir() && strings.HasSuffix(p, ".ff") {
+			if err == nil && !info.IsDir() && (strings.HasSuffix(p, ".ff") || strings.HasSuffix(p, ".dd")) {
 				filesBefore++
 			}
 			return nil
@@ -374,6 +512,9 @@ func RunScript(sc Script, work string) *vtrace.Tracer {
 			cargs := []string{"ag-runmain", "-conf", cf, "-metrics", fmt.Sprintf("127.0.0.1:%d", mPort), "-memwindow", fmt.Sprint(defs.BufferMaxNumChunksInMemory)}
 			if g.Reload != "" {
 				cargs = append(cargs, "-reload")
+			}
+			if sc.ChunkRecords > 0 {
+				cargs = append(cargs, "-chunkrecords", fmt.Sprint(sc.ChunkRecords))
 			}
 			if g.InputFlushMs > 0 {
 				cargs = append(cargs, "-inputflush", fmt.Sprint(g.InputFlushMs))
@@ -608,7 +749,7 @@ func RunScript(sc Script, work string) *vtrace.Tracer {
 		m := gather()
 		nfiles := 0
 		_ = filepath.Walk(queue, func(p string, info os.FileInfo, err error) error {
-			if err == nil && !info.IsDir() && strings.HasSuffix(p, ".ff") {
+			if err == nil && !info.IsDir() && (strings.HasSuffix(p, ".ff") || strings.HasSuffix(p, ".dd")) {
 				nfiles++
 			}
 			return nil
@@ -690,9 +831,13 @@ func RunMain(args []string) int {
 	reload := fs.Bool("reload", false, "allow reloads by SIGHUP")
 	memWindow := fs.Int("memwindow", 500, "defs.BufferMaxNumChunksInMemory")
 	inputFlush := fs.Int("inputflush", 30, "defs.InputFlushInterval in ms")
+	chunkRecords := fs.Int("chunkrecords", 0, "record limit per Fluentd chunk")
 	_ = fs.Parse(args)
 	logger.SetLogLevel(logger.FatalLevel)
 	scaleDefs()
+	if *chunkRecords > 0 {
+		fluentdforward.SetChunkLimitsForVerif(*chunkRecords, 0)
+	}
 	defs.BufferMaxNumChunksInMemory = *memWindow
 	defs.InputFlushInterval = time.Duration(*inputFlush) * time.Millisecond
 	run.Run(*conf, *metrics, *reload)
